@@ -412,6 +412,10 @@ class Exemptions:
             return self._compiles(t)
         if isinstance(e, ast.BinOp) and isinstance(e.op, ast.Add):
             return self.regex_complete(e.left, f, depth + 1) and self.regex_complete(e.right, f, depth + 1)
+        # "".join(<piece> for x in xs): zero or more complete pieces one after the other (what a `+=` loop over xs builds)
+        if isinstance(e, ast.Call) and isinstance(e.func, ast.Attribute) and e.func.attr == "join" and isinstance(e.func.value, ast.Constant) \
+                and e.func.value.value == "" and len(e.args) == 1 and isinstance(e.args[0], (ast.GeneratorExp, ast.ListComp)):
+            return self.regex_complete(e.args[0].elt, f, depth + 1)
         if isinstance(e, ast.Subscript) and isinstance(e.value, ast.Name):
             lits = [nn.value for nn in iter_own_nodes(f.node) if isinstance(nn, ast.Assign)
                     and any(isinstance(t_, ast.Name) and t_.id == e.value.id for t_ in nn.targets)]
